@@ -1702,7 +1702,7 @@ impl<'a> Elab<'a> {
                 }
                 // `drop(f(..))`: the value of a call, dropped at once (a plain value here: RAII values are always bound to locals
                 // in the extracted code)
-                if matches!(peel_paren(&c.args[0]), Expr::MethodCall(_) | Expr::Call(_)) {
+                if matches!(peel_paren(&c.args[0]), Expr::MethodCall(_) | Expr::Call(_) | Expr::Try(_)) {
                     let e = self.fold_expr(c.args[0].clone());
                     if let Some(dv) = self.u.dropvalue.clone() {
                         // the destructor of the dropped value is user code (C14): modelled call, with the thread context
